@@ -109,6 +109,11 @@ class Evaluator:
             return self.truth(c[0]) or self.truth(c[1])
         if k == 'ConditionalOperator':
             return self.expr(c[1]) if self.truth(c[0]) else self.expr(c[2])
+        if k == 'BinaryOperator' and e.get('op') in ('==', '!=') and len(c) == 2:
+            # comparison of two predicate values (e.g. `has_children(a) != has_children(b)`)
+            l, r = self.expr(c[0]), self.expr(c[1])
+            if isinstance(l, (bool, int)) and isinstance(r, (bool, int)):
+                return (l == r) if e['op'] == '==' else (l != r)
         if k == 'DeclRefExpr' and e.get('n') in self.env:
             return self.env[e['n']]
         if k in ('CXXConstructExpr', 'CXXFunctionalCastExpr', 'ParenListExpr', 'InitListExpr') and len(c) == 1:
